@@ -43,8 +43,9 @@ def to_np(x):
     return x
 
 
-def build(mols, params, pad_extra=0, pad_value=0.0, learned=None, **molkw):
-    """Molecule + driver for a list of molecule dicts (or one dict)."""
+def build(mols, params, pad_extra=0, pad_value=0.0, learned=None, const=None, es=None, **molkw):
+    """Molecule + driver for a list of molecule dicts (or one dict).  `const` / `es`: a Constants object / driver
+    that was used before (what user scripts do: one `const`, one driver, many molecules)."""
     from seqm.ElectronicStructure import Electronic_Structure
     from seqm.Molecule import Molecule
     from seqm.seqm_functions.constants import Constants
@@ -52,7 +53,7 @@ def build(mols, params, pad_extra=0, pad_value=0.0, learned=None, **molkw):
     if isinstance(mols, dict):
         mols = [mols]
     sp, xyz, ch, mu = M.batch(mols, pad_extra=pad_extra, pad_value=pad_value)
-    const = Constants()
+    const = Constants() if const is None else const
     species = torch.as_tensor(sp, dtype=torch.int64)
     coords = torch.as_tensor(xyz, dtype=molkw.pop("dtype", torch.float64))
     kw = dict(molkw)
@@ -62,7 +63,7 @@ def build(mols, params, pad_extra=0, pad_value=0.0, learned=None, **molkw):
     if learned is not None:
         kw["learned_parameters"] = learned
     molecule = Molecule(const, params, coords, species, **kw)
-    es = Electronic_Structure(params)
+    es = Electronic_Structure(params) if es is None else es
     return molecule, es
 
 
